@@ -79,8 +79,15 @@ def finish(res: Result, tier: str, seed: int, t0: float, selftest: Optional[dict
     insts = list(seen.values())
 
     viol = [i for i in insts if i.verdict == VIOLATION]
-    new_viol = [i for i in viol if i.key not in known_keys]
-    known_hit = [i for i in viol if i.key in known_keys]
+    def listed(i):
+        k = known_keys.get(i.key)
+        if k is None:
+            return False
+        # an entry may pin the exact diagnosis: a different failure at the same construct is new
+        return "detail" not in k or k["detail"] == i.detail
+
+    new_viol = [i for i in viol if not listed(i)]
+    known_hit = [i for i in viol if listed(i)]
     undec = [i for i in insts if i.verdict == UNDECIDED]
     oks = [i for i in insts if i.verdict == OK]
 
